@@ -11,9 +11,12 @@ use crate::engine::{Cx, Violation};
 pub struct GridResult {
     pub evaluated: u64,
     pub counters: BTreeMap<String, u64>,
-    /// (point index, violation), sorted by point index; at most `keep` kept
+    /// (point index, violation), sorted by point index; a bounded number is kept PER CLASS (oracle, sig), so that a
+    /// frequent class (e.g. a known finding) can never crowd out a different violation
     pub violations: Vec<(usize, Violation)>,
     pub total_violations: u64,
+    /// number of violations per (oracle, sig), uncapped
+    pub class_totals: BTreeMap<(String, String), u64>,
 }
 
 pub fn threads() -> usize {
@@ -39,7 +42,7 @@ where
 {
     let next = AtomicUsize::new(0);
     let counters: Mutex<BTreeMap<String, u64>> = Mutex::new(BTreeMap::new());
-    let viols: Mutex<Vec<(usize, Violation)>> = Mutex::new(vec![]);
+    let viols: Mutex<BTreeMap<(String, String), (u64, Vec<(usize, Violation)>)>> = Mutex::new(BTreeMap::new());
     let total = AtomicUsize::new(0);
     let chunk = (n / (threads() * 16)).clamp(1, 4096);
     std::thread::scope(|sc| {
@@ -58,8 +61,10 @@ where
                             let mut v = viols.lock().unwrap();
                             for x in local.violations.drain(..) {
                                 total.fetch_add(1, Ordering::Relaxed);
-                                if v.len() < keep * 64 {
-                                    v.push((i, x));
+                                let e = v.entry((x.oracle.clone(), x.sig.clone())).or_insert((0, vec![]));
+                                e.0 += 1;
+                                if e.1.len() < keep * 8 || std::env::var("WWMC_KEEP_ALL").is_ok() {
+                                    e.1.push((i, x));
                                 }
                             }
                         }
@@ -72,13 +77,21 @@ where
             });
         }
     });
-    let mut violations = viols.into_inner().unwrap();
+    let per_class = viols.into_inner().unwrap();
+    let mut violations: Vec<(usize, Violation)> = vec![];
+    let mut class_totals = BTreeMap::new();
+    for (k, (n_class, mut v)) in per_class {
+        class_totals.insert(k, n_class);
+        v.sort_by(|a, b| a.0.cmp(&b.0));
+        violations.extend(v);
+    }
     violations.sort_by(|a, b| (a.0, &a.1.oracle).cmp(&(b.0, &b.1.oracle)));
     GridResult {
         evaluated: n as u64,
         counters: counters.into_inner().unwrap(),
         violations,
         total_violations: total.load(Ordering::Relaxed) as u64,
+        class_totals,
     }
 }
 
